@@ -184,6 +184,21 @@ func c16R1(c *engine.Ctx) {
 				}
 			}
 			c.Check(ok, "C16.R1", "full/"+spec.field, fn.Pos(), "%s must number frames 0,1,2… from its own counter %s", spec.m, spec.field)
+			// a number is consumed only for a frame that goes to the wire: no
+			// exit between drawing the number and the framing call, and the
+			// counter is touched nowhere else in the method
+			adds := engine.CallsTo(fn, false, "sync/atomic.AddInt64", "sync/atomic.StoreInt64")
+			okUse := len(adds) == 1
+			for _, add := range adds {
+				for _, fr := range engine.CallsTo(fn, false, spec.callee) {
+					for _, r := range exits(fn) {
+						if (engine.PathQuery{Fn: fn, From: add, Barrier: func(i ssa.Instruction) bool { return i == fr.(ssa.Instruction) }}).Reaches(r) {
+							okUse = false
+						}
+					}
+				}
+			}
+			c.Check(okUse, "C16.R1", "full/"+spec.field+"/consumed-only-by-a-frame", fn.Pos(), "%s must draw a sequence number only for a frame it hands to %s (a number consumed by a rejected call desynchronises every later frame)", spec.m, engine.Short(spec.callee))
 		}
 	}
 }
